@@ -38,6 +38,7 @@ type Program struct {
 	Order    []string                  // topological order (deps first) of workspace packages
 	external map[string]*types.Package // non-workspace packages by path (from export data)
 	Mutation string                    // description when this is a mutated program
+	Texts    map[string][]byte // in-memory content of non-Go files (specifications) replaced by a mutation; absolute path -> content
 }
 
 // Sorted returns packages sorted by path.
@@ -284,6 +285,16 @@ func (p *Program) MutateMany(files map[string][]byte, desc string) (*Program, er
 		}
 		abs[f] = src
 	}
+	texts := map[string][]byte{}
+	for k, v := range p.Texts {
+		texts[k] = v
+	}
+	for f, src := range abs {
+		if !strings.HasSuffix(f, ".go") {
+			texts[f] = src
+			delete(abs, f)
+		}
+	}
 	dirty := map[string]bool{}
 	for f := range abs {
 		found := false
@@ -315,7 +326,7 @@ func (p *Program) MutateMany(files map[string][]byte, desc string) (*Program, er
 			}
 		}
 	}
-	np := &Program{Fset: p.Fset, Root: p.Root, Pkgs: map[string]*Package{}, external: p.external, Mutation: desc}
+	np := &Program{Fset: p.Fset, Root: p.Root, Pkgs: map[string]*Package{}, external: p.external, Mutation: desc, Texts: texts}
 	for k, v := range p.Pkgs {
 		np.Pkgs[k] = v
 	}
@@ -362,6 +373,9 @@ func (p *Program) MutateMany(files map[string][]byte, desc string) (*Program, er
 func (p *Program) ReadFile(file string) ([]byte, error) {
 	if !filepath.IsAbs(file) {
 		file = filepath.Join(p.Root, file)
+	}
+	if src, ok := p.Texts[file]; ok {
+		return src, nil
 	}
 	return os.ReadFile(file)
 }
